@@ -37,9 +37,13 @@ import (
 	"time"
 
 	"github.com/risor-io/risor"
+	"github.com/risor-io/risor/ast"
 	"github.com/risor-io/risor/builtins"
+	"github.com/risor-io/risor/compiler"
 	"github.com/risor-io/risor/importer"
 	"github.com/risor-io/risor/object"
+	"github.com/risor-io/risor/parser"
+	"github.com/risor-io/risor/vm"
 
 	"verif/internal/ev"
 )
@@ -214,7 +218,7 @@ func run(src, kind string, e *env) (res result) {
 	switch kind {
 	case "local":
 		opts = append(opts, risor.WithLocalImporter(e.dir))
-	case "fs-strict", "fs-naive":
+	case "fs-strict", "fs-naive", "fs-incremental":
 		names := make([]string, 0, len(g))
 		for k := range g {
 			names = append(names, k)
@@ -230,7 +234,12 @@ func run(src, kind string, e *env) (res result) {
 	}
 	ctx, cancel := context.WithTimeout(context.Background(), 30*time.Second)
 	defer cancel()
-	_, err := risor.Eval(ctx, src, opts...)
+	var err error
+	if kind == "fs-incremental" {
+		err = runIncremental(ctx, src, opts)
+	} else {
+		_, err = risor.Eval(ctx, src, opts...)
+	}
 	res.Class = errClass(err)
 	if err != nil {
 		res.Err = ev.Clip(err.Error(), 200)
@@ -239,6 +248,35 @@ func run(src, kind string, e *env) (res result) {
 		}
 	}
 	return res
+}
+
+// runIncremental feeds the script to one compiler and one VM statement by statement, the way the
+// REPL does (compile the new input onto the accumulated code, resume the VM): imports, module
+// state and functions of imported modules have to behave as in a single evaluation.
+func runIncremental(ctx context.Context, src string, opts []risor.Option) error {
+	cfg := risor.NewConfig(opts...)
+	tree, err := parser.Parse(ctx, src)
+	if err != nil {
+		return err
+	}
+	c, err := compiler.New(cfg.CompilerOpts()...)
+	if err != nil {
+		return err
+	}
+	var m *vm.VirtualMachine
+	for _, stmt := range tree.Statements() {
+		code, err := c.Compile(ast.NewProgram([]ast.Node{stmt}))
+		if err != nil {
+			return err
+		}
+		if m == nil {
+			m = vm.New(code, cfg.VMOpts()...)
+		}
+		if err := m.Run(ctx); err != nil {
+			return err
+		}
+	}
+	return nil
 }
 
 func scratchDir() (string, error) {
@@ -1061,7 +1099,7 @@ func judgeB(col *collector, idx int, c caseB, sc script, res result) (bad []stri
 	return bad, tickKey
 }
 
-var kindsB = []string{"fs-strict", "local"}
+var kindsB = []string{"fs-strict", "local", "fs-incremental"}
 
 func decodeSeq(i, n int) []int {
 	// sequences ordered by length, then lexicographically; index 0 is the empty sequence
